@@ -6,7 +6,8 @@
    inline array size; [step0] is the ideal sequence; [abs] reads the user-visible items off the
    representation; [inv] is the representation invariant (spelled out by C16_inv_meaning). *)
 From Coq Require Import List Arith ZArith.
-From Muscle Require Import Cont.QueueModel Cont.QueueInv Cont.QueueProofs.
+From Coq Require Import Sorting.Permutation Sorting.Sorted.
+From Muscle Require Import Cont.QueueModel Cont.QueueInv Cont.QueueSort Cont.QueueProofs Cont.QueueConst Cont.QueueTwo.
 Import ListNotations.
 
 (* what the invariant says, slot by slot *)
@@ -26,7 +27,7 @@ Theorem C16_inv_empty : forall (ow : bool) (sq : nat) (jk : Z), 0 < sq -> inv ow
 Proof. exact inv_empty. Qed.
 Print Assumptions C16_inv_empty.
 
-(* every one of the 24 modelled operations, on every state satisfying the invariant, for both item
+(* every one of the 29 modelled single-queue operations, on every state satisfying the invariant, for both item
    kinds, every junk value and every inline-array size: the invariant is preserved, the resulting
    items are those of the ideal sequence and the result (value / status / count / index) is the same *)
 Theorem C16_step_refines : forall (ow : bool) (jk : Z) (sq : nat) (q : q1) (o : op),
@@ -88,6 +89,50 @@ Theorem C16_junk_independent : forall (ow : bool) (sq : nat) (jk1 jk2 : Z) (ops 
 Proof. exact junk_independent. Qed.
 Print Assumptions C16_junk_independent.
 
+(* what the ideal Sort(from, to) -- which C16_step_refines shows the representation-level Sort to equal --
+   guarantees: a permutation; outside the range nothing moves; inside, sorted by the key (the item itself, or
+   x/4 for the key-only comparison) with equal-key items in their original order (stability) *)
+Theorem C16_sort_perm : forall (bk : bool) (l : list Z) (f t : nat), Permutation (l0_sort bk l f t) l.
+Proof. exact l0_sort_perm. Qed.
+Print Assumptions C16_sort_perm.
+
+Theorem C16_sort_range : forall (bk : bool) (l : list Z) (f t : nat),
+  let t' := Nat.min t (length l) in
+  f < t' ->
+  exists mid, l0_sort bk l f t = firstn f l ++ mid ++ skipn t' l /\ length mid = t' - f /\
+    StronglySorted (key_le (sort_key bk)) mid /\
+    forall v, filter (fun y => Z.eqb (sort_key bk y) v) mid =
+              filter (fun y => Z.eqb (sort_key bk y) v) (firstn (t' - f) (skipn f l)).
+Proof. exact l0_sort_range. Qed.
+Print Assumptions C16_sort_range.
+
+(* ---- two queues: SwapContents, Plunder (move), operator=, ==, StartsWith/EndsWith, the Queue-argument
+   forms of AddTailMulti/AddHeadMulti/InsertItemsAt, also with a Queue passed as its own argument *)
+Theorem C16_step2_refines : forall (jk : Z) (sq : nat) (ow : bool) (p : q1 * q1) (o : op2),
+  inv2 sq ow p ->
+  inv2 sq ow (fst (step2 ow jk sq p o)) /\
+  abs2 (fst (step2 ow jk sq p o)) = fst (step20 (abs2 p) o) /\
+  snd (step2 ow jk sq p o) = snd (step20 (abs2 p) o).
+Proof. exact step2_refines. Qed.
+Print Assumptions C16_step2_refines.
+
+Theorem C16_queue_pair_refines : forall (jk : Z) (sq : nat) (ow : bool) (ops : list op2), 0 < sq ->
+  inv2 sq ow (fst (run2 ow jk sq ops)) /\
+  abs2 (fst (run2 ow jk sq ops)) = fst (run20 ops) /\
+  snd (run2 ow jk sq ops) = snd (run20 ops).
+Proof. exact run2_refines. Qed.
+Print Assumptions C16_queue_pair_refines.
+
+(* finding F36 (fixed in /repo ee310d7): the un-repaired a.AddHeadMulti(a, ...) loop violates the ideal
+   semantics when enough slots are unused; the repaired form (always copy first) does not *)
+Theorem C16_add_head_multi_self_old_refuted : exists q start num,
+  inv false 3 q /\
+  abs (add_head_multi_self_old false 0%Z 3 q start num) <> slice (abs q) start num ++ abs q /\
+  abs (add_head_multi_q false 0%Z 3 q (abs q) start num) = slice (abs q) start num ++ abs q.
+Proof. exact add_head_multi_self_old_refuted. Qed.
+Print Assumptions C16_add_head_multi_self_old_refuted.
+
+
 (* non-vacuity of the premise [inv q]: a reachable wrapped-around state on the inline array, and a
    heap state of trivial items with junk outside the window *)
 Example C16_wrapped_state : exists q,
@@ -97,3 +142,7 @@ Proof. exact wrapped_state. Qed.
 Example C16_heap_state : exists q,
   inv false 3 q /\ st q = SHeap /\ cnt q = 2 /\ In 77%Z (arr q) /\ ~ In 77%Z (abs q).
 Proof. exact heap_state. Qed.
+
+Example C16_two_state : exists p,
+  inv2 3 true p /\ st (fst p) = SHeap /\ st (snd p) = SSmall /\ abs2 p = ([1; 2; 3; 4; 5]%Z, [7; 8]%Z).
+Proof. exact two_state. Qed.
